@@ -17,12 +17,12 @@ AcqOK == (Rec.op = "mul" /\ Has("acq")) => Rec.acq = AntiBit(Dec(Rec.a), Dec(Rec
 IpowOK == (Rec.op = "mul" /\ Has("ipow")) =>
              Rec.ipow = Mul([Dec(Rec.a) EXCEPT !.k = 0], [Dec(Rec.b) EXCEPT !.k = 0]).k
 \* acq_mat / acq_grid : whole anticommutation table of two lists
-AcqMatOK == Rec.op = "acqmat" =>
+AcqMatOK == (Rec.op = "acqmat" /\ Has("mat")) =>
     /\ Len(Rec.mat) = Len(Rec.as)
     /\ \A i \in 1..Len(Rec.as) : /\ Len(Rec.mat[i]) = Len(Rec.bs)
                                  /\ \A j \in 1..Len(Rec.bs) : Rec.mat[i][j] = AntiBit(Dec(Rec.as[i]), Dec(Rec.bs[j]))
 \* batch_dot / PauliPolynomial.__matmul__ / ipow_product : all pairwise products, row-major
-BatchOK == Rec.op = "batch" =>
+BatchOK == (Rec.op = "batch" /\ Has("rets")) =>
     LET L1 == Len(Rec.as)  L2 == Len(Rec.bs) IN
     /\ Len(Rec.rets) = L1 * L2
     /\ \A i \in 1..L1 : \A j \in 1..L2 : Dec(Rec.rets[(i - 1) * L2 + j]) = Mul(Dec(Rec.as[i]), Dec(Rec.bs[j]))
@@ -34,5 +34,5 @@ ChainFrom(acc, steps, j) ==
     ELSE LET q == Dec(steps[j].q)
              nxt == IF steps[j].side = "R" THEN Mul(acc, q) ELSE Mul(q, acc)
          IN Dec(steps[j].ret) = nxt /\ ChainFrom(nxt, steps, j + 1)
-ChainOK == Rec.op = "chain" => ChainFrom(Dec(Rec.start), Rec.steps, 1)
+ChainOK == (Rec.op = "chain" /\ ~Has("exc")) => ChainFrom(Dec(Rec.start), Rec.steps, 1)
 =============================================================================
